@@ -3,6 +3,9 @@
 package otr3
 
 import (
+	"bytes"
+	"crypto/cipher"
+	"crypto/aes"
 	"fmt"
 	"crypto/sha256"
 	"encoding/binary"
@@ -25,6 +28,7 @@ type verifDataInfo struct {
 	TLVs           []tlv
 	Revealed       [][]byte
 	MACOK          bool
+	CTROK          bool   // the standard library's AES-CTR reads the same plaintext
 	Stream         string // identity of the AES-CTR key stream the message was enciphered with (key, counter)
 	Cipher         []byte
 }
@@ -98,6 +102,17 @@ func verifOpenOwn(c *Conversation, msg []byte) (info verifDataInfo) {
 		return
 	}
 	info.OK = true
+	// the same ciphertext through the standard library's AES-CTR (initial counter = top half, low half zero): what the
+	// package calls encryption must be exactly that
+	if blk, err := aes.NewCipher(sk.sendingAESKey); err == nil {
+		iv := make([]byte, 16)
+		copy(iv, dm.topHalfCtr[:])
+		ind := make([]byte, len(dm.encryptedMsg))
+		cipher.NewCTR(blk, iv).XORKeyStream(ind, dm.encryptedMsg)
+		q := plainDataMsg{}
+		q.deserialize(ind)
+		info.CTROK = bytes.Equal(q.message, p.message) && len(q.tlvs) == len(p.tlvs)
+	}
 	info.Plain = append([]byte{}, p.message...)
 	info.TLVs = p.tlvs
 	ks := sha256.Sum256(append(append([]byte{}, sk.sendingAESKey...), dm.topHalfCtr[:]...))
